@@ -560,6 +560,11 @@ static EbErrorType svt_release_process(EbFifo *process_fifo_ptr) {
     svt_block_on_mutex(process_fifo_ptr->queue_ptr->lockout_mutex);
 
     svt_circular_buffer_push_front(process_fifo_ptr->queue_ptr->process_queue, process_fifo_ptr);
+    SVT_VERIF_TRACE(SVT_VERIF_EV_REGISTER,
+                    process_fifo_ptr->queue_ptr,
+                    process_fifo_ptr,
+                    process_fifo_ptr->queue_ptr->process_queue->current_count,
+                    process_fifo_ptr->queue_ptr->process_queue->buffer_total_count);
 
     svt_muxing_queue_assignation(process_fifo_ptr->queue_ptr);
 
@@ -620,6 +625,11 @@ EbErrorType svt_release_object(EbObjectWrapper *object_ptr) {
                                                            : object_ptr->live_count - 1;
 
     if ((object_ptr->release_enable == EB_TRUE) && (object_ptr->live_count == 0)) {
+        SVT_VERIF_TRACE(SVT_VERIF_EV_POOL_RETURN,
+                        object_ptr->system_resource_ptr,
+                        object_ptr,
+                        object_ptr->live_count,
+                        0);
         // Set live_count to EB_ObjectWrapperReleasedValue
         object_ptr->live_count = EB_ObjectWrapperReleasedValue;
 
